@@ -920,7 +920,6 @@ func structFieldVar(t types.Type, path []string) *types.Var {
 	return nil
 }
 
-
 // locIsScratch: the access path rest (".f.g[*]" as the write-set analysis prints it), followed from a value of type
 // t, passes through a field that carries no state (fieldCarriesState) — for every struct type the path can denote
 // (an interface-typed field stands for all its implementations in the module).
